@@ -268,7 +268,6 @@ type c33Runner struct {
 	f        *vfFix
 	v        *vfProto
 	w        *c33World
-	maxBlock int64 // highest height of a full block fed through validateBlock so far
 	reached  bool  // some input passed the first decoding layer (reached the pool lookup / the pending or request list)
 }
 
@@ -523,9 +522,7 @@ func (r *c33Runner) step(s c33Step) {
 			txs = append(txs, vfTx(fmt.Sprintf("c33-b-%d-%d", s.Seed, i), 1000))
 		}
 		b := f.vfBlock(s.Height, txs)
-		if res := r.deliver(psBlockTopic, r.encode(b), f.peers[0], f.peers[1]); res == ps.ValidationAccept && s.Height > r.maxBlock {
-			r.maxBlock = s.Height
-		}
+		r.deliver(psBlockTopic, r.encode(b), f.peers[0], f.peers[1])
 	case "tx":
 		r.deliver(psTxTopic, r.encode(r.mkTx(s.Txs[0])), f.peers[0], f.peers[1])
 	case "batch":
@@ -584,11 +581,12 @@ func (r *c33Runner) probes() {
 			fail("a well-formed block at height %d sent after the case's messages was not handed to the blockchain module", tip+1)
 		}
 		have++
-	case r.maxBlock-int64(blkHeaderCacheSize) >= tip+1 && lib.Known(c33KnownWindow):
-		// exact signature of the listed finding: an earlier peer block with height >= tip+1+128 moved the receive window
+	case atomic.LoadInt64(&v.val.maxRecvBlkHeight)-int64(blkHeaderCacheSize) >= tip+1 && lib.Known(c33KnownWindow):
+		// exact signature of the listed finding: an earlier peer block (any bytes that decode as a Block) with height
+		// >= tip+1+128 moved validateBlock's receive window past the real height
 		lib.ExcludedKnown(c33KnownWindow)
 	default:
-		fail("a well-formed block at height %d (local tip %d) sent after the case's messages was refused by validateBlock (result %v, highest peer block height seen %d)", tip+1, tip, res, r.maxBlock)
+		fail("a well-formed block at height %d (local tip %d) sent after the case's messages was refused by validateBlock (result %v, receive window top %d)", tip+1, tip, res, atomic.LoadInt64(&v.val.maxRecvBlkHeight))
 	}
 	// (2) a complete light block
 	p1, p2 := vfTx("probe-a", 1000), vfTx("probe-b", 1000)
@@ -618,6 +616,11 @@ func (r *c33Runner) probes() {
 	if !ok {
 		fail("a block request for height %d (served by the chain) sent after the case's messages got no block response", tip+3)
 	}
+	// (4) a request for a height the protocol believes to have while the chain cannot serve it (blocks were rolled back
+	// after the AddBlock event): the request loop has to get over the blockchain module's error reply
+	far := &types.PeerPubSubMsg{MsgID: blockReqMsgID, ProtoMsg: types.Encode(&types.ReqInt{Height: tip + 9})}
+	r.deliver(v.psub.peerTopic, r.encode(far), f.peers[3], f.peers[3])
+	r.guard("handleAddBlock", "", "", func() { v.handleAddBlock(&queue.Message{Data: &types.Block{Height: tip + 9}}) })
 	r.pass()
 }
 
